@@ -100,7 +100,7 @@ func Verif_C19_rotate() {
 
 	var recs [][]byte
 	if preExisting { // a log file left by an earlier run: its content counts as one record
-		old := []byte(verifStringN("old", 1))
+		old := []byte(verifStringN("old", 1+verifChoose("oldLen", 2))) // 1 or 2 bytes: may already fill the size limit
 		verifAssume(os.WriteFile(cur, old, 0o600) == nil)
 		recs = append(recs, old)
 	}
